@@ -494,7 +494,12 @@ package fsutil
 //@   ensures nomode: !specNoSymlink(stat.Mode) ==> cnt(Chmod) == old(cnt(Chmod))
 //@   ensures times: result == nil ==> cnt(Utimes) == old(cnt(Utimes)) + 1 && arg(Utimes, 0) == p && arg(Utimes, 1) * 1000000000 + arg(Utimes, 2) == stat.ModTime && arg(Utimes, 5) == unix.AT_SYMLINK_NOFOLLOW
 //@   ensures xattrs_on_the_entry: cnt(LSetxattr) > old(cnt(LSetxattr)) ==> arg(LSetxattr, 0) == p
-//@   ensures order: result == nil ==> (cnt(LSetxattr) > old(cnt(LSetxattr)) ==> when(LSetxattr) < when(Lchown)) && when(Lchown) < when(Utimes) && (specNoSymlink(stat.Mode) ==> when(Lchown) < when(Chmod) && when(Chmod) < when(Utimes))
+// KNOWN FINDING F17 (not repaired): the owner is set AFTER the xattrs, and for a regular file the
+// content is written after both; chown and write each remove security.capability, so a source
+// file with file capabilities arrives without them. The statement-derived obligations are
+// owner_before_xattrs (here) and xattrs_after_content (requestAsyncFileData$1).
+//@   ensures owner_before_xattrs: result == nil && cnt(LSetxattr) > old(cnt(LSetxattr)) ==> when(Lchown) < when(LSetxattr)
+//@   ensures order: result == nil ==> (cnt(LSetxattr) > old(cnt(LSetxattr)) ==> when(LSetxattr) < when(Utimes)) && when(Lchown) < when(Utimes) && (specNoSymlink(stat.Mode) ==> when(Lchown) < when(Chmod) && when(Chmod) < when(Utimes))
 //@   ensures atmost: cnt(Lchown) <= old(cnt(Lchown)) + 1 && cnt(Chmod) <= old(cnt(Chmod)) + 1 && cnt(Utimes) <= old(cnt(Utimes)) + 1
 
 // the digest header is the caller's hash of the entry's stat as sent
@@ -546,6 +551,7 @@ package fsutil
 //@   ensures mtime_last: result == nil ==> cnt(Utimes) == old(cnt(Utimes)) + 1 && arg(Utimes, 0) == dest && arg(Utimes, 1) * 1000000000 + arg(Utimes, 2) == st.ModTime && when(Utimes) == clk()
 //@   ensures content_first: result == nil ==> cnt(DataCb) == old(cnt(DataCb)) + 1 && when(DataCb) < when(Utimes)
 //@   ensures notify_once: result == nil && dw.opt.NotifyCb != nil ==> cnt(Notify) == old(cnt(Notify)) + 1 && arg(Notify, 0) == ChangeKindAdd && arg(Notify, 1) == p
+//@   ensures xattrs_after_content: result == nil && len(st.Xattrs) > 0 ==> cnt(LSetxattr) > old(cnt(LSetxattr)) && when(DataCb) < when(LSetxattr)
 
 // directory mtimes recorded at creation are re-applied after all content is written
 //@ func DiskWriter.Wait$1
